@@ -28,14 +28,40 @@ func nilFieldContradictions(c *Ctx, r *Report, rule string, floor int, inPkg fun
 	mayNil := map[fkey]string{}
 	// a field counts as lazily created when a function that runs while connections are served (not the set-up
 	// entry points, whose "if nil then default" establishes the field once and for all) both tests and assigns it
-	setup := func(fn *ssa.Function) bool {
+	setupMemo := map[*ssa.Function]int{} // 1 yes, 2 no, 3 in progress
+	var setup func(fn *ssa.Function) bool
+	setup = func(fn *ssa.Function) bool {
+		switch setupMemo[fn] {
+		case 1:
+			return true
+		case 2, 3:
+			return false
+		}
+		setupMemo[fn] = 3
+		res := false
 		for f := fn; f != nil; f = f.Parent() {
 			switch f.Name() {
 			case "Provision", "provision", "UnmarshalCaddyfile", "UnmarshalJSON", "Validate", "init", "CaddyModule":
-				return true
+				res = true
 			}
 		}
-		return false
+		if !res && fn.Parent() == nil {
+			// a helper all of whose callers are set-up code is set-up code ("create the optional object if needed")
+			if sites, escapes := c.callSitesOf(fn); !escapes && len(sites) > 0 {
+				res = true
+				for _, cs := range sites {
+					if !setup(cs.Parent()) {
+						res = false
+					}
+				}
+			}
+		}
+		if res {
+			setupMemo[fn] = 1
+		} else {
+			setupMemo[fn] = 2
+		}
+		return res
 	}
 	for _, fn := range c.Funcs {
 		if setup(fn) {
@@ -84,7 +110,7 @@ func nilFieldContradictions(c *Ctx, r *Report, rule string, floor int, inPkg fun
 		if len(fn.Blocks) == 0 || !inPkg(fn) {
 			continue
 		}
-		for _, d := range unguardedDerefs(c, fn, func(sn, f string) bool { _, ok := mayNil[fkey{sn, f}]; return ok }, 1) {
+		for _, d := range unguardedDerefs(c, fn, func(sn, f string) bool { _, ok := mayNil[fkey{sn, f}]; return ok }, 0) {
 			n++
 			construct := d.sn + "." + d.f + " " + d.how
 			if why, ok := exceptions[fname(fn)+"|"+d.sn+"."+d.f]; ok {
@@ -175,12 +201,36 @@ func derefUse(in ssa.Instruction, v ssa.Value) string {
 	return ""
 }
 
-func unguardedDerefs(c *Ctx, fn *ssa.Function, isMayNil func(sn, f string) bool, _ int) []nilDeref {
-	type key struct {
-		base ssa.Value
-		sn   string
-		f    string
-	}
+type establishedField struct {
+	param int
+	sn, f string
+}
+
+// establishedFields: the (parameter, field) pairs that are non-nil at every return of fn.
+func establishedFields(c *Ctx, fn *ssa.Function, isMayNil func(sn, f string) bool, depth int) []establishedField {
+	_, atReturn := nilFieldFlow(c, fn, isMayNil, depth)
+	return atReturn
+}
+
+func unguardedDerefs(c *Ctx, fn *ssa.Function, isMayNil func(sn, f string) bool, depth int) []nilDeref {
+	out, _ := nilFieldFlow(c, fn, isMayNil, depth)
+	return out
+}
+
+type nfKey struct {
+	base ssa.Value
+	sn   string
+	f    string
+}
+
+func nilFieldFlow(c *Ctx, fn *ssa.Function, isMayNil func(sn, f string) bool, depth int) ([]nilDeref, []establishedField) {
+	out, est, _ := nilFieldFlowAt(c, fn, isMayNil, depth, nil)
+	return out, est
+}
+
+// nilFieldFlowAt also returns the facts in force just before the instruction probe (nil: none asked for).
+func nilFieldFlowAt(c *Ctx, fn *ssa.Function, isMayNil func(sn, f string) bool, depth int, probe ssa.Instruction) ([]nilDeref, []establishedField, map[nfKey]bool) {
+	type key = nfKey
 	keyOfAddr := func(a ssa.Value) (key, bool) {
 		fa, ok := a.(*ssa.FieldAddr)
 		if !ok {
@@ -237,6 +287,18 @@ func unguardedDerefs(c *Ctx, fn *ssa.Function, isMayNil func(sn, f string) bool,
 					}
 				}
 			}
+			// a helper of the module that leaves a field of its argument non-nil on every return ("arm the timer")
+			if ci, ok := ins.(ssa.CallInstruction); ok && depth < 2 {
+				if _, isGo := ins.(*ssa.Go); !isGo {
+					if callee := ci.Common().StaticCallee(); callee != nil && callee != fn && len(callee.Blocks) > 0 && callee.Pkg != nil && strings.HasPrefix(callee.Pkg.Pkg.Path(), modPath) {
+						for _, e := range establishedFields(c, callee, isMayNil, depth+1) {
+							if e.param < len(ci.Common().Args) {
+								st[key{ci.Common().Args[e.param], e.sn, e.f}] = true
+							}
+						}
+					}
+				}
+			}
 		}
 		return st
 	}
@@ -265,6 +327,39 @@ func unguardedDerefs(c *Ctx, fn *ssa.Function, isMayNil func(sn, f string) bool,
 		top[b] = true
 	}
 	ins[fn.Blocks[0]] = set{}
+	// an unexported helper all of whose callers are known starts with what holds at every call for the fields of
+	// its arguments ("release the pending packet", called only where there is one)
+	if depth < 2 && fn.Parent() == nil && !token.IsExported(fn.Name()) {
+		if sites, escapes := c.callSitesOf(fn); !escapes && len(sites) > 0 {
+			var acc set
+			firstSite := true
+			for _, cs := range sites {
+				cur := set{}
+				if cs.Parent() != fn {
+					_, _, at := nilFieldFlowAt(c, cs.Parent(), isMayNil, depth+1, cs.(ssa.Instruction))
+					for k := range at {
+						for i, a := range cs.Common().Args {
+							if a == k.base && i < len(fn.Params) {
+								cur[key{fn.Params[i], k.sn, k.f}] = true
+							}
+						}
+					}
+				}
+				if firstSite {
+					acc, firstSite = cur, false
+					continue
+				}
+				for k := range acc {
+					if !cur[k] {
+						delete(acc, k)
+					}
+				}
+			}
+			if acc != nil {
+				ins[fn.Blocks[0]] = acc
+			}
+		}
+	}
 	delete(top, fn.Blocks[0])
 	if fn.Recover != nil {
 		ins[fn.Recover] = set{}
@@ -312,11 +407,19 @@ func unguardedDerefs(c *Ctx, fn *ssa.Function, isMayNil func(sn, f string) bool,
 		}
 	}
 	var out []nilDeref
+	var atProbe map[nfKey]bool
 	for _, b := range fn.Blocks {
 		if top[b] {
 			continue // unreachable
 		}
 		transfer(b, ins[b], func(in ssa.Instruction, st set) {
+			if probe != nil && in == probe {
+				atProbe = map[nfKey]bool{}
+				for k := range st {
+					atProbe[k] = true
+				}
+				// facts established by dominating branch edges on the loaded value itself are in st already
+			}
 			var ops []*ssa.Value
 			ops = in.Operands(ops)
 			seen := map[ssa.Value]bool{}
@@ -338,6 +441,40 @@ func unguardedDerefs(c *Ctx, fn *ssa.Function, isMayNil func(sn, f string) bool,
 			}
 		})
 	}
-	_ = c
-	return out
+	// what holds at every return
+	var atRet set
+	first := true
+	for _, b := range fn.Blocks {
+		if top[b] {
+			continue
+		}
+		if _, isRet := b.Instrs[len(b.Instrs)-1].(*ssa.Return); !isRet {
+			continue
+		}
+		end := transfer(b, ins[b], nil)
+		if first {
+			atRet, first = end, false
+			continue
+		}
+		for k := range atRet {
+			if !end[k] {
+				delete(atRet, k)
+			}
+		}
+	}
+	var est []establishedField
+	for k := range atRet {
+		if p, ok := k.base.(*ssa.Parameter); ok {
+			if i := paramIndex(fn, p); i >= 0 {
+				est = append(est, establishedField{i, k.sn, k.f})
+			}
+		}
+	}
+	sort.Slice(est, func(i, j int) bool {
+		if est[i].param != est[j].param {
+			return est[i].param < est[j].param
+		}
+		return est[i].sn+est[i].f < est[j].sn+est[j].f
+	})
+	return out, est, atProbe
 }
